@@ -16,7 +16,7 @@
    element checks are C14_parallel / C14_assign_refuted. Tie: accept/reject, diagnostic
    classes and presence of the output file of the real cff against the model and against the
    independent boolean rules wf_b on every generated flow and mutation, one flow per file. *)
-From CffVerif Require Import ValidateModel ValidateProofs ValidateWalk SignatureModel SignatureProofs.
+From CffVerif Require Import ValidateModel ValidateProofs ValidateWalk SignatureModel SignatureProofs ParSigModel ParSigProofs.
 
 Theorem C14_dup_params : forall f, chk_dup_param f = false <-> NoDup (map TUser (fparams f)).
 Proof. exact chk_dup_param_spec. Qed.
@@ -148,3 +148,43 @@ Theorem C14_accepted_task :
       (td_invoke t = true <-> cf_outputs f = []).
 Proof. exact accepted_task. Qed.
 Print Assumptions C14_accepted_task.
+
+(* cff.Parallel (compile_parallel.go; ParSigModel): the functions of every accepted Parallel
+   have the shapes the generated calls need - a task or End function takes at most the
+   context and returns at most an error; a slice function is (ctx?, index int?, element) and a
+   map function (ctx?, key, value), with the collection's types assignable to the parameters;
+   at most one End hook per collection, none under ContinueOnError. *)
+Theorem C14_parallel_task_shape :
+  forall s f, compile_par_task s = inl f ->
+    compile_function s = inl f /\ sg_params s = ctx_part f /\ sg_results s = err_part f.
+Proof. exact par_task_shape. Qed.
+Print Assumptions C14_parallel_task_shape.
+
+Theorem C14_parallel_slice_shape :
+  forall assignable fn elem ends t ds, compile_slice assignable fn elem ends = (Some t, ds) ->
+    compile_function fn = inl (sl_fn t) /\
+    (exists p, sg_params fn = slice_call_args t p /\ assignable elem p = true) /\
+    sg_results fn = err_part (sl_fn t) /\
+    (forall e, sl_end t = Some e -> exists x, In x ends /\ compile_end x = inl e).
+Proof. exact slice_shape. Qed.
+Print Assumptions C14_parallel_slice_shape.
+
+Theorem C14_parallel_map_shape :
+  forall assignable fn key val ends t ds, compile_map assignable fn key val ends = (Some t, ds) ->
+    compile_function fn = inl (mp_fn t) /\
+    (exists k v, sg_params fn = ctx_part (mp_fn t) ++ [k; v] /\ assignable key k = true /\ assignable val v = true) /\
+    sg_results fn = err_part (mp_fn t) /\
+    (forall e, mp_end t = Some e -> exists x, In x ends /\ compile_end x = inl e).
+Proof. exact map_shape. Qed.
+Print Assumptions C14_parallel_map_shape.
+
+Theorem C14_parallel_accepted :
+  forall assignable coe items, compile_parallel assignable coe items = [] ->
+    forall it, In it items ->
+      match it with
+      | ITask s => exists f, compile_par_task s = inl f
+      | ISlice fn e ends => exists t, compile_slice assignable fn e ends = (Some t, []) /\ length ends <= 1 /\ (coe = true -> sl_end t = None)
+      | IMap fn k v ends => exists t, compile_map assignable fn k v ends = (Some t, []) /\ length ends <= 1 /\ (coe = true -> mp_end t = None)
+      end.
+Proof. exact accepted_parallel. Qed.
+Print Assumptions C14_parallel_accepted.
